@@ -1059,18 +1059,34 @@ func StructFieldValue(v ssa.Value, name string) ssa.Value {
 		}
 		break
 	}
-	a, ok := v.(*ssa.Alloc) // &T{...}
-	if !ok {
-		u, isU := v.(*ssa.UnOp)
-		if !isU || u.Op != token.MUL {
+	// base address: &T{...}, a load of a variable, or the address of a nested
+	// struct field that is initialised in place
+	var a ssa.Value
+	switch x := v.(type) {
+	case *ssa.Alloc:
+		a = x
+	case *ssa.FieldAddr:
+		a = x
+	case *ssa.UnOp:
+		if x.Op != token.MUL {
 			return nil
 		}
-		a, ok = u.X.(*ssa.Alloc)
-		if !ok {
+		switch y := x.X.(type) {
+		case *ssa.Alloc:
+			a = y
+		case *ssa.FieldAddr:
+			a = y
+		default:
 			return nil
 		}
+	default:
+		return nil
+	}
+	if a.Referrers() == nil {
+		return nil
 	}
 	var val ssa.Value
+	var nested *ssa.FieldAddr
 	n := 0
 	for _, r := range *a.Referrers() {
 		fa, ok := r.(*ssa.FieldAddr)
@@ -1082,10 +1098,31 @@ func StructFieldValue(v ssa.Value, name string) ssa.Value {
 				val = st.Val
 				n++
 			}
+			if sub, ok := rr.(*ssa.FieldAddr); ok && sub.X == ssa.Value(fa) {
+				nested = fa
+			}
 		}
 	}
 	if n == 1 {
 		return val
+	}
+	if n == 0 && nested != nil {
+		return nested // a nested struct literal built in place: its address
+	}
+	if n == 0 {
+		// the variable was assigned as a whole (x := T{...}; or *x = *tmp):
+		// the field is that of the single stored value
+		var whole ssa.Value
+		m := 0
+		for _, r := range *a.Referrers() {
+			if st, ok := r.(*ssa.Store); ok && st.Addr == a {
+				whole = st.Val
+				m++
+			}
+		}
+		if m == 1 && whole != v {
+			return StructFieldValue(whole, name)
+		}
 	}
 	return nil
 }
